@@ -120,7 +120,8 @@ CLAIMED = {
         technique="Coq refinement proof (slice map -> insertion-ordered map) + exhaustive/random history harness",
         text="Set/Delete of the slice map refine an insertion-ordered map (key order, latest value, other keys untouched, keys "
              "unique), for every history incl. batch form and ApplyIf: C16_keys_unique, C16_flavour_preserved, "
-             "C16_batch_equiv, C16_select_json, C16_render. Tie: every history (exhaustive to length 3/5 over three keys, random "
+             "C16_batch_equiv, C16_select_json, C16_render; C16_api_call_is_map_step / C16_api_history: a Prop / PropIf / Unset call of the "
+             "constructor model (Model/Ctor.v, compared call by call with the implementation) is one step of that specification. Tie: every history (exhaustive to length 3/5 over three keys, random "
              "to length 40, both flavours) is run one by one, in batch form, through ApplyIf and as a select's JSON selection on "
              "the implementation; SQL compared with the extracted model and entries (read back with the PostgreSQL lexer) with "
              "an independent ordered-map specification.",
@@ -208,7 +209,9 @@ CLAIMED = {
              "use a constant whose value is the operator the name/comment denotes (census: no other), the LIKE/IN/IS NULL "
              "family uses the right keyword on the receiver's handle, the root package re-exports pass through. Regenerated "
              "from /repo on every run, so added wrappers are included. Harness: every wrapper (registry regenerated from source) "
-             "for every arity with distinguishable arguments, compared with the generic constructor.",
+             "for every arity with distinguishable arguments, compared with the generic constructor; every operator / predicate "
+             "method (and its optional Escape argument) rendered and compared with the naming table; the catalogue calls of the "
+             "api mode compared with the operator tables of Model/Ctor.v.",
         note="The name->symbol rule is normalisation (case, underscores); the operator table is a small hand table in "
              "Meta/Wrappers.v (what the names denote). Defect D3 was repaired (fix: commit).",
         ref="DESIGN.md §6 C18"),
@@ -257,8 +260,8 @@ CLAIMED = {
              "with the implementation, and no recorded call meeting the hypotheses yields a value whose rendering panics. "
              "C20_constructor_preserves_wf / C20_method_preserves_wf / C20_built_no_panic: the same for the expression constructors "
              "and the ExpBase methods (Model/Ctor.v) and for any nesting of modelled calls whose expression arguments are built likewise.",
-        note="Partial: C20_built_no_panic covers the modelled API (Model/Api.v, Model/Ctor.v); package fn (thin wrappers, C18), Float, the JSON "
-             "object builder (C16) are outside `built` - for them reachable => wfe is "
+        note="Partial: C20_built_no_panic covers the modelled API (Model/Api.v, Model/Ctor.v); package fn (thin wrappers, C18), Float, the batch form "
+             "(Start..End) of the JSON object builder are outside `built` (JsonBuildObject / Prop / PropIf / Unset are inside) - for them reachable => wfe is "
              "checked on generated values only; Go runtime stack exhaustion / allocation failure not modelled.",
         ref="DESIGN.md §6 C20"),
 }
